@@ -56,7 +56,11 @@ def stepLine (s : State) (line : String) : State × String :=
       | some (s1, o) => (s1, showOut o)
       | none => (s, "not-enabled")
     | _, _ => (s, "bad-op")
-  | ["arr"] => (s, showList s.arr)
+  | ["arr"] =>
+    let present := (s.arr.eraseDups).mergeSort (· ≤ ·)
+    let tn := ",".intercalate (present.map fun p => s!"{p}:{s.taskNum p}")
+    (s, if s.arr.isEmpty then "-" else s!"{showList s.arr} tn={tn}")
+  | ["fact", "shared-task-slice"] => (s, if workersShareTaskSlice then "1" else "0")
   | ["stall"] => (s, if fetchHasDeadline then "bounded" else "unbounded")
   | _ => (s, "bad-op")
 
